@@ -31,7 +31,7 @@ def build(v, suite, ops, rnd, tier, h, d):
                     root = tdb.root(tname)
                 else:
                     continue
-                keys = bf.cut_keys(tdb, root, nkey, rnd, budget)
+                keys = bf.cut_keys(tdb, root, nkey, rnd, bf.budget_for(len(tdb.order[root]), budget))
                 for k in keys:
                     k = k[:nkey]
                     sql, params = eq_query(s, t, ix, k, bf.id_cols(t))
